@@ -285,7 +285,9 @@ PROPS["C19"] = _C19
 def _solver_nontrivial(line, verdict):
     return any(k in verdict for k in ("log-accepted", "solution-covered", "inner-certified", "unknown-small", "status-", "default-solver"))
 
-_SOLVER_WL = lambda tier, seed: [{"harness": "h_solver", "tag": "solver", "args": ["c05", seed, 160 if tier == "quick" else 2500]}]
+_SOLVER_WL = lambda tier, seed: [{"harness": "h_solver", "tag": "solver", "args": ["c05", seed, 160 if tier == "quick" else 2500]},
+                                 # completeness across an interruption (cell / time limit), save, reload, resume: the resumed paving must still cover every solution
+                                 {"harness": "h_solver", "tag": "resume", "args": ["c18r", seed + 1000, 16 if tier == "quick" else 150] + (["full"] if tier == "thorough" else [])}]
 
 PROPS["C05"] = {
     "modules": ["IbexProofs.Props.C05"],
@@ -296,6 +298,8 @@ PROPS["C05"] = {
             "RoundRobin / LargestFirst / SmearSumRelative, CellStack / CellList, eps_x_min in {1e-3,1/32,1/8} (uniform or per variable), eps_x_max, cell limits 1..60 or none, with logging wrappers "
             "around the contractor and the buffer; the whole log (pushes, tops, contractions, pops, flushes) is replayed by the Lean cover checker against the final paving; "
             "the planted solution and 12 sampled points are decided feasible exactly and must lie in a box of the paving; DefaultSolver must return a status (no abort without LP library); "
+            "the box given to solve() differs from the declared domain System::box in 45% of the runs (smaller, shifted, larger declared domain); 12% of the searches are stopped by a tiny time limit "
+            "(the buffer must be flushed into pending boxes); searches interrupted at every cell count, saved, reloaded and resumed (workload of C18) must still cover every solution; "
             "non-trivial = accepted log / exactly feasible covered point / certified box",
     "assumptions": ["leaf contract: each logged contraction keeps the solutions (C04); reported existence boxes contain a solution for each parameter value (C06/C09, Brouwer)",
                     "time limits are not exercised deterministically (cell limits are)"],
